@@ -164,6 +164,22 @@ def run(prop, args, extra_trusted=(), rule_extra=""):
     tss = typesets_for(prop, deep)
     ctx = {"typesets": tss, "std": streams.shipped_typesets()["StandardSet"]}
     new, seen_known, kn = oracle.run_oracle(run, prop, items, make_oracle(prop), ctx)
+    if prop in ("C03", "C04"):
+        # numpy arrays built directly (str dtype, >= 1024 rows, NaN placements): pandas' to_numpy never produces these
+        n_seq = 0
+        for rc in D.NUMPY_DIRECT_CORNERS:
+            with warnings.catch_warnings():
+                warnings.simplefilter("ignore")
+                x = streams.build(rc)
+                n_seq += 1
+                for f in spec["fn"](ctx["std"], "StandardSet", x, "numpy-array"):
+                    f["recipe"] = rc
+                    e = oracle.classify(prop, f, kn)
+                    if e is None:
+                        new.append(f)
+                    else:
+                        seen_known.setdefault(e["id"], []).append(f)
+        run.cov["numpy_direct_corners"] = n_seq
     if prop == "C09":
         # pure Python lists whose elements pandas would re-box (numpy scalars, huge ints, extreme floats): deterministic corners
         n_seq = 0
